@@ -613,6 +613,111 @@ type SpecRule struct {
 type DecisionSpec struct {
 	Atoms map[string]string // name -> regexp matching exactly one canonical code atom
 	Rules []SpecRule
+	// Excl lists pairs of atoms that cannot hold together (x == "" and x == "true"); used only to
+	// discard infeasible completions when the code leaves an atom undecided.
+	Excl [][2]string
+}
+
+// atomsOf lists the atom names of a formula in evaluation order.
+func atomsOf(f Formula, out []string) []string {
+	switch x := f.(type) {
+	case fAtom:
+		return append(out, string(x))
+	case fNot:
+		return atomsOf(x.x, out)
+	case fAnd:
+		for _, y := range x {
+			out = atomsOf(y, out)
+		}
+	case fOr:
+		for _, y := range x {
+			out = atomsOf(y, out)
+		}
+	}
+	return out
+}
+
+// specOutcomes evaluates the decision list under a partial valuation: every completion of the
+// atoms the code left undecided (that the guards actually consult, and that respects Excl) is
+// followed; the result maps each outcome the documented cascade can produce to the rule producing
+// it. firstUndecided names the first rule whose guard the valuation does not decide. ok is false
+// when the exploration budget is exhausted.
+func specOutcomes(spec DecisionSpec, env map[string]int, lits []Lit) (outs map[string]string, firstUndecided string, ok bool) {
+	outs = map[string]string{}
+	budget := 4096
+	ok = true
+	propagate := func(e map[string]int) bool {
+		for _, ex := range spec.Excl {
+			if e[ex[0]] == 1 && e[ex[1]] == 1 {
+				return false
+			}
+			if e[ex[0]] == 1 {
+				e[ex[1]] = -1
+			}
+			if e[ex[1]] == 1 {
+				e[ex[0]] = -1
+			}
+		}
+		return true
+	}
+	var rec func(e map[string]int, from int)
+	rec = func(e map[string]int, from int) {
+		if budget <= 0 {
+			ok = false
+			return
+		}
+		budget--
+		for i := from; i < len(spec.Rules); i++ {
+			sr := spec.Rules[i]
+			v := sr.Guard.eval(e)
+			if v == 1 {
+				o := SubstDecidedStates(sr.Outcome, lits)
+				if _, seen := outs[o]; !seen {
+					outs[o] = sr.Name
+				}
+				return
+			}
+			if v == 0 {
+				if firstUndecided == "" {
+					firstUndecided = sr.Name
+				}
+				pick := ""
+				for _, a := range atomsOf(sr.Guard, nil) {
+					if e[a] == 0 {
+						pick = a
+						break
+					}
+				}
+				if pick == "" {
+					ok = false
+					return
+				}
+				for _, val := range []int{1, -1} {
+					e2 := map[string]int{}
+					for k, v := range e {
+						e2[k] = v
+					}
+					e2[pick] = val
+					if !propagate(e2) {
+						continue
+					}
+					rec(e2, i)
+				}
+				return
+			}
+		}
+		outs[""] = "(no rule applies)"
+	}
+	e0 := map[string]int{}
+	for k, v := range env {
+		e0[k] = v
+	}
+	if !propagate(e0) {
+		// the path itself is infeasible under the declared exclusions: nothing to compare
+		return outs, "", true
+	}
+	rec(e0, 0)
+	return outs, firstUndecided, ok
 }
 
 // CheckDecisionList compares the decision structure of the code (paths) with the spec.
@@ -622,6 +727,7 @@ type DecisionSpec struct {
 func CheckDecisionList(r *Report, rule, fnKey string, paths []DecisionPath, atoms map[string]bool, spec DecisionSpec) {
 	// bind atoms
 	bind := map[string]string{} // code atom -> spec name
+	var missing []string
 	var names []string
 	for n := range spec.Atoms {
 		names = append(names, n)
@@ -648,9 +754,12 @@ func CheckDecisionList(r *Report, rule, fnKey string, paths []DecisionPath, atom
 			bind[hits[0]] = n
 			r.Add(rule+"-atom", fnKey+" atom "+n, "", true, "condition found: "+hits[0])
 		} else if len(hits) == 0 {
-			r.Add(rule+"-atom", fnKey+" atom "+n, "", false,
-				"no branch condition of "+fnKey+" matches the documented test /"+spec.Atoms[n]+"/ (threshold, operand or table changed, or test removed)",
-				append([]string{"conditions present:"}, codeAtoms...)...)
+			// not a violation by itself: the code may leave a documented test out when no outcome
+			// depends on it (x == "" || x != "true"); the path obligations decide that. The note
+			// is attached to every failing path group below.
+			missing = append(missing, n+" /"+spec.Atoms[n]+"/")
+			r.Add(rule+"-atom", fnKey+" atom "+n, "", true,
+				"no branch condition of "+fnKey+" matches the documented test /"+spec.Atoms[n]+"/; accepted only if no outcome depends on it (see the path obligations)")
 		} else {
 			r.Add(rule+"-atom", fnKey+" atom "+n, "", false, "ambiguous: several conditions match", hits...)
 		}
@@ -676,31 +785,26 @@ func CheckDecisionList(r *Report, rule, fnKey string, paths []DecisionPath, atom
 				}
 			}
 		}
-		want, wantRule := "", ""
-		undecided := ""
-		for _, sr := range spec.Rules {
-			v := sr.Guard.eval(env)
-			if v == 1 {
-				want = SubstDecidedStates(sr.Outcome, p.Lits)
-				wantRule = sr.Name
-				break
-			}
-			if v == 0 {
-				undecided = sr.Name
-				break
-			}
-		}
+		outs, undecided, explored := specOutcomes(spec, env, p.Lits)
 		gk, why := "", ""
+		_, agrees := outs[p.Outcome]
 		switch {
-		case undecided != "":
+		case len(outs) == 0 && explored:
+			// infeasible under the declared exclusions
+			continue
+		case !explored || (len(outs) > 1 && undecided != ""):
 			gk = fmt.Sprintf("%s: outcome %s reached before rule '%s' is decided", fnKey, p.Outcome, undecided)
-			why = "the code reaches outcome " + p.Outcome + " without deciding documented rule '" + undecided + "' first (rule dropped, reordered or its test weakened/changed)"
-		case want != p.Outcome:
+			why = "the code reaches outcome " + p.Outcome + " without deciding documented rule '" + undecided + "' first, and the documented outcome depends on it (rule dropped, reordered or its test weakened/changed)"
+		case !agrees:
+			want := ""
+			for o := range outs {
+				want = o
+			}
 			gk = fmt.Sprintf("%s: cascade decides %s, code decides %s", fnKey, want, p.Outcome)
 			why = "the documented cascade decides " + want + " on this path but the code decides " + p.Outcome
 		default:
 			reached[p.Outcome]++
-			reachedRule[wantRule]++
+			reachedRule[outs[p.Outcome]]++
 			o := r.Add(rule+"-path", fmt.Sprintf("%s path#%d -> %s", fnKey, i, p.Outcome), p.Pos, true, "agrees with the documented cascade")
 			if i < 3 {
 				o.Witness = []string{p.String()}
@@ -720,7 +824,11 @@ func CheckDecisionList(r *Report, rule, fnKey string, paths []DecisionPath, atom
 	}
 	for _, gk := range gkeys {
 		g := groups[gk]
-		r.Add(rule+"-path", gk, g.pos, false, fmt.Sprintf("%s [%d paths]", g.why, g.n), g.wit...)
+		wit := g.wit
+		if len(missing) > 0 {
+			wit = append(append([]string{}, wit...), "documented tests without a matching branch condition: "+strings.Join(missing, "; "))
+		}
+		r.Add(rule+"-path", gk, g.pos, false, fmt.Sprintf("%s [%d paths]", g.why, g.n), wit...)
 	}
 	for _, sr := range spec.Rules {
 		n := reachedRule[sr.Name]
